@@ -44,6 +44,35 @@ def effDeadline (cfg : Cfg) (now : Nat) (par : Params) : Nat :=
   | some d => d
   | none => now + effTimeout cfg par
 
+/-! ## dispatch paths of `TarsInvoke`
+
+  After the effective-deadline selection `TarsInvoke` reaches `doInvoke` on one of four paths:
+        if app.allFilters.cf != nil       { err = app.allFilters.cf(ctx, msg, s.doInvoke, timeout) }   -- `single`
+        else if cf := middleware chain    { err = cf(ctx, msg, s.doInvoke, timeout) }                  -- `middleware`
+        else { pre filters …; err = s.doInvoke(ctx, msg, timeout); post filters … }                    -- `direct` / `prePost`
+  (client filters are assumed pass-through: they hand ctx, msg and timeout on unchanged).  Two
+  contexts exist at that point: the caller's (deadline `par.ctxDeadline`, possibly none) and the one
+  assigned by `ctx, cancel = context.WithTimeout(ctx, timeout)` in the no-deadline branch.  Which of
+  them each call site passes is re-extracted from the source (`Consts.callCtxSite…` = 1 iff the site
+  passes the variable assigned by `context.WithTimeout`). -/
+
+inductive Path
+  | direct | single | middleware | prePost
+  deriving DecidableEq, Repr
+
+/-- does the call site of this path pass the context that went through `context.WithTimeout`? -/
+def passesInvokeCtx : Path → Bool
+  | .direct => Consts.callCtxSiteDirect == 1
+  | .prePost => Consts.callCtxSiteDirect == 1
+  | .single => Consts.callCtxSiteSingle == 1
+  | .middleware => Consts.callCtxSiteMiddleware == 1
+
+/-- the deadline of the context `doInvoke` waits on (`none`: it never expires) -/
+def handedDeadline (cfg : Cfg) (now : Nat) (par : Params) (p : Path) : Option Nat :=
+  match par.ctxDeadline with
+  | some d => some d                    -- both contexts carry the caller's deadline
+  | none => if passesInvokeCtx p then some (now + effTimeout cfg par) else none
+
 structure Times where
   start : Nat
   deadline : Nat
